@@ -155,6 +155,9 @@ pub trait AnyTree {
     fn iter(&self) -> Vec<(Vec<u8>, Vec<u8>)>;
     /// nodes seen by a visitor relying on the trait's default callbacks
     fn minimal_visit(&self) -> Vec<(Vec<u8>, Vec<u8>)>;
+    /// the node iterator through the OTHER `Iterator` methods (count, last, nth, skip, size_hint, by_ref,
+    /// two iterators at once): every one must agree with the collected sequence; `Some(what)` if not
+    fn iter_probes(&self) -> Option<String>;
     /// `root_hash_cached() == root_hash_cached()` through `PartialEq` of `RootHash` (None if either is absent)
     fn root_eq(&self, other: &dyn AnyTree) -> Option<bool>;
     fn ser(&self) -> Option<Vec<OwnedRange>>;
@@ -327,6 +330,86 @@ where
         let mut m = Minimal { seen: vec![] };
         self.t.in_order_traversal(&mut m);
         m.seen
+    }
+    fn iter_probes(&self) -> Option<String> {
+        let key = |n: &Node<N, K>| n.key().as_ref().to_vec();
+        let all: Vec<Vec<u8>> = self.t.node_iter().map(key).collect();
+        let len = all.len();
+        if self.t.node_iter().count() != len {
+            return Some("node_iter().count() disagrees with the collected sequence".into());
+        }
+        if self.t.node_iter().last().map(key) != all.last().cloned() {
+            return Some("node_iter().last() disagrees with the collected sequence".into());
+        }
+        let (lo, hi) = self.t.node_iter().size_hint();
+        if lo > len || hi.map_or(false, |h| h < len) {
+            return Some(format!("node_iter().size_hint() = ({lo}, {hi:?}) excludes the real length {len}"));
+        }
+        let positions: Vec<usize> = if len <= 12 {
+            (0..=len + 1).collect()
+        } else {
+            vec![0usize, 1, 2, 3, len / 3, len / 2, len.saturating_sub(2), len.saturating_sub(1), len, len + 1]
+        };
+        for k in positions {
+            if self.t.node_iter().nth(k).map(key) != all.get(k).cloned() {
+                return Some(format!("node_iter().nth({k}) disagrees with the collected sequence"));
+            }
+            let mut it = self.t.node_iter().skip(k);
+            if it.next().map(key) != all.get(k).cloned() {
+                return Some(format!("node_iter().skip({k}).next() disagrees with the collected sequence"));
+            }
+            // partial consumption, then the rest through by_ref / fold
+            let mut it2 = self.t.node_iter();
+            let head: Vec<Vec<u8>> = it2.by_ref().take(k).map(key).collect();
+            let rest = it2.fold(0usize, |a, _| a + 1);
+            if head.len() + rest != len || head[..] != all[..head.len()] {
+                return Some(format!("node_iter(): take({k}) then fold yields {} + {rest} of {len} nodes", head.len()));
+            }
+            // count / last / nth on a PARTIALLY consumed iterator
+            let adv = |m: usize| {
+                let mut it = self.t.node_iter();
+                for _ in 0..m.min(len) {
+                    it.next();
+                }
+                it
+            };
+            let left_ = len - k.min(len);
+            if adv(k).count() != left_ {
+                return Some(format!("node_iter(): count() after {k} items is not the {left_} remaining"));
+            }
+            if adv(k).last().map(key) != if left_ > 0 { all.last().cloned() } else { None } {
+                return Some(format!("node_iter(): last() after {k} items disagrees with the collected sequence"));
+            }
+            if adv(k).nth(1).map(key) != all.get(k.min(len) + 1).cloned() {
+                return Some(format!("node_iter(): nth(1) after {k} items disagrees with the collected sequence"));
+            }
+            // size_hint after partial consumption
+            let mut it3 = self.t.node_iter();
+            for _ in 0..k.min(len) {
+                it3.next();
+            }
+            let (lo, hi) = it3.size_hint();
+            let left = len - k.min(len);
+            if lo > left || hi.map_or(false, |h| h < left) {
+                return Some(format!("node_iter().size_hint() after {k} items = ({lo}, {hi:?}) excludes the {left} remaining"));
+            }
+        }
+        // two iterators alive at once, advanced alternately
+        let (mut a, mut b) = (self.t.node_iter(), self.t.node_iter());
+        for i in 0..len.min(6) {
+            if a.next().map(key) != all.get(i).cloned() || b.next().map(key) != all.get(i).cloned() {
+                return Some("two node iterators advanced alternately disagree".into());
+            }
+        }
+        // exhausted iterators stay exhausted
+        let mut e = self.t.node_iter();
+        for _ in 0..len {
+            e.next();
+        }
+        if e.next().is_some() || e.next().is_some() {
+            return Some("node_iter() yields items after returning None".into());
+        }
+        None
     }
     fn root_eq(&self, other: &dyn AnyTree) -> Option<bool> {
         let o = other.as_any().downcast_ref::<Self>()?;
